@@ -43,6 +43,7 @@ func checkSetPermsPathsAs(p *Prog, r *Report, rule string) {
 	}
 	fP := fn.Params[2]
 	idxP := fn.Params[1]
+	var pe *PathEnum
 	isModeVal := func(v ssa.Value) bool {
 		b, ok := v.(*ssa.BinOp)
 		if !ok || b.Op != token.AND {
@@ -50,7 +51,13 @@ func checkSetPermsPathsAs(p *Prog, r *Report, rule string) {
 		}
 		k, isK := constInt(b.Y)
 		base, fld := loadedField(b.X)
-		return isK && k == 0o170000 && fld == modeF && derivesFrom(base, fP)
+		if !(isK && k == 0o170000 && fld == modeF) {
+			return false
+		}
+		if pe != nil {
+			base = pe.C(unwrapLocal(base))
+		}
+		return derivesFrom(base, fP) || base == ssa.Value(fP)
 	}
 	atom := func(cond ssa.Value) (string, bool, bool) {
 		switch x := cond.(type) {
@@ -120,10 +127,26 @@ func checkSetPermsPathsAs(p *Prog, r *Report, rule string) {
 		}
 		return ""
 	}
-	pe := &PathEnum{Atom: atom, Event: event, IgnoreUnknown: true, BackEdge: "loop", MaxPaths: 50000,
+	pe = &PathEnum{Atom: atom, Event: event, IgnoreUnknown: true, BackEdge: "loop", MaxPaths: 50000,
+		Inline: func(f *ssa.Function) bool {
+			switch f.Name() {
+			case "setPerms", "createDevice", "symlink", "skipFile", "listOnly", "generateAndSendSums", "FileMode", "setUid":
+				return false
+			}
+			return true
+		},
 		Outcome: func(last ssa.Instruction, events []string) string {
 			ret, ok := last.(*ssa.Return)
-			if !ok || !isNilConst(retResults(ret)[0]) {
+			completed := false
+			if ok {
+				rv := pe.V(retResults(ret)[0])
+				completed = isNilConst(rv)
+				// `return rt.setPerms(...)`: the entry is finished by setPerms itself
+				if c, isC := rv.(*ssa.Call); isC && c.Common().StaticCallee() == setPerms {
+					completed = true
+				}
+			}
+			if !completed {
 				for _, e := range events {
 					if e == "request" {
 						return "request"
@@ -739,7 +762,7 @@ func checkTouchUp(p *Prog, r *Report) {
 	}
 	ok := false
 	for _, st := range storesToField(p, rtF) {
-		if st.Parent() != gen {
+		if pkgPathOfFunc(st.Parent()) != pkgReceiver {
 			r.Bad(rule, funcKey(st.Parent())+" store retouchDirPerms", p.Pos(st.Pos()), "unexpected writer")
 			continue
 		}
